@@ -97,6 +97,15 @@ def columns(case):
             n1, e1, s1 = rich(seq[:, c:c + 1], st[:, c:c + 1])
             if not (np.array_equal(n1[:, 0], n3[:, c]) and np.array_equal(e1[:, 0], e3[:, c]) and np.array_equal(s1[:, 0], s3[:, c])):
                 bad.append(dict(K=K, nt=nt, column=c))
+        # converging columns of very different magnitude: a tolerance taken over the whole table instead of per column shows here
+        h = 0.5 ** np.arange(K)
+        seq = np.stack([1.0 + 1e-5 * h + 3e-6 * h ** 2, 1e12 * (1.0 + 0.3 * h), -2.0 + 1e-3 * h], axis=1)
+        st = np.stack([h, h, h], axis=1)
+        n3, e3, s3 = rich(seq, st)
+        for c in range(3):
+            n1, e1, s1 = rich(seq[:, c:c + 1], st[:, c:c + 1])
+            if not (np.array_equal(n1[:, 0], n3[:, c]) and np.array_equal(e1[:, 0], e3[:, c])):
+                bad.append(dict(K=K, nt=nt, column=c, magnitudes=[1.0, 1e12, 2.0], error_estimate_alone=e1[:, 0].tolist(), error_estimate_jointly=e3[:, c].tolist()))
     return dict(reproduced=bool(bad), failing=bad[:4])
 
 
